@@ -172,6 +172,8 @@ JOBS = [
         rewrites=[(r'return \*this;', 'return self;')], description='acc += y is exactly one Add(y)'),
     Job('Accumulator.minus_eq', 'Accumulator::operator-=', ['C16', 'C13'], cname='Accumulator_minus_eq', replace=['Accumulator::Add'], timeout=300,
         rewrites=[(r'return \*this;', 'return self;')], description='acc -= y is exactly one Add(-y)'),
+    Job('Accumulator.assign', 'Accumulator::operator=', ['C16', 'C08', 'C13'], select=r'^\s*T y\s*$', cname='Accumulator_assign', timeout=300,
+        rewrites=[(r'return \*this;', 'return self;')], description='acc = y forgets the previous state: [y, +0]'),
     # ---- polygon area (C08)
     Job('PolygonArea.transitdirect', 'PolygonAreaT::transitdirect', ['C08', 'C14'], timeout=900, sat='cadical', description='crossing parity for unrolled (direct) edges'),
     Job('PolygonArea.transitdirect.full', 'PolygonAreaT::transitdirect', ['C08'], timeout=3600, sat='cadical', tier='thorough', defines=['TD_MAXTURNS=1073741824'],
